@@ -10,6 +10,8 @@
      statements of parse() that touch _vm, equals "command line > file (alias == primary) >
      default" in all four source combinations;
  R4  options accepted only for compatibility bind fields whose getters main never calls;
+ R7  the bound value reaches its user unchanged: no getter and no first use in main converts it floating->integral, to a
+     narrower or differently signed integer (or, in a getter, double->float);
  R5  command-line and config-file declarations of one option agree in field and type; no
      two primaries share a field; every primary the documentation promises a default for
      has one;
@@ -234,6 +236,75 @@ def run(chk, prog):
         chk.check(fld in byfield, "R5", sites[0], "%s() returns %s, which an option binds" % (gname, fld), "getter:%s:unbound" % gname)
         n5 += 1
     chk.floor("R5-instances", n5, 60)
+
+    # ---- R7: the value the option table bound reaches its user unchanged -------------------------------------------------
+    # a getter hands out the bound field; neither the getter nor the first use in main may push the value through a conversion
+    # that changes it (floating -> integral, integral -> narrower or signed -> unsigned, double -> float in the getter itself)
+    WIDTH = {"bool": 1, "char": 8, "signed char": 8, "unsigned char": 8, "short": 16, "unsigned short": 16, "int": 32, "unsigned int": 32,
+             "long": 64, "unsigned long": 64, "long long": 64, "unsigned long long": 64}
+    FWIDTH = {"float": 32, "double": 64, "long double": 80}
+
+    def changes_value(cast, frm, to, strict_float):
+        frm = (frm or "").replace("const ", "").strip()
+        to = (to or "").replace("const ", "").strip()
+        if cast == "FloatingToIntegral":
+            return True
+        if cast == "IntegralCast" and frm in WIDTH and to in WIDTH:
+            if frm == "bool":
+                return False
+            if WIDTH[to] < WIDTH[frm]:
+                return True
+            if not frm.startswith("unsigned") and to.startswith("unsigned"):
+                return True
+            if frm.startswith("unsigned") and not to.startswith("unsigned") and WIDTH[to] == WIDTH[frm]:
+                return True
+            return False
+        if cast == "IntegralToFloating" and frm in WIDTH and to in FWIDTH:
+            return WIDTH[frm] > (24 if to == "float" else 53)
+        if cast == "FloatingCast" and strict_float and frm in FWIDTH and to in FWIDTH:
+            return FWIDTH[to] < FWIDTH[frm]
+        return False
+
+    def casts_above(n):
+        """conversions applied to the value of node n inside expression e (outermost last): list of (cast kind, from, to, node)"""
+        out = []
+        cur = n
+        while cur.get("k") in ("ImplicitCastExpr", "CXXStaticCastExpr", "CStyleCastExpr", "CXXFunctionalCastExpr", "ParenExpr") and len(cur.get("c", [])) == 1:
+            inner = cur["c"][0]
+            if cur.get("cast") and cur["k"] != "ParenExpr":
+                out.append((cur["cast"], inner.get("ctype"), cur.get("ctype"), cur))
+            cur = inner
+        return list(reversed(out)), cur
+
+    n7 = 0
+    for fq in prog.functions.values():
+        if fq.get("class") != "vfps::ProgramOptions" or not fq["name"].startswith("get") or not fq.get("body"):
+            continue
+        rets = [y for y in A.walk(fq["body"]) if y["k"] == "ReturnStmt" and y.get("c")]
+        for r_ in rets:
+            cs, core = casts_above(r_["c"][0])
+            if A.this_field(core) is None:
+                continue
+            bad = [(c_[0], c_[1], c_[2]) for c_ in cs if changes_value(c_[0], c_[1], c_[2], True)]
+            n7 += 1
+            chk.check(not bad, "R7", A.loc(fq, r_), "%s() returns the bound field %s without a value-changing conversion%s" % (fq["name"], A.this_field(core), "" if not bad else " (%s)" % bad),
+                      "getter:%s:converts:%s" % (fq["name"], ["%s:%s->%s" % b_ for b_ in bad]))
+    midx = A.index(mainf)
+    for x in A.walk(mainf["body"]):
+        if x["k"] == "CXXMemberCallExpr" and (x.get("callee") or "").startswith("vfps::ProgramOptions::get"):
+            cur, bad = x, []
+            while True:
+                par = midx[1].get(cur["id"])
+                if par is None or par.get("k") not in ("ImplicitCastExpr", "CXXStaticCastExpr", "CStyleCastExpr", "CXXFunctionalCastExpr", "ParenExpr", "ExprWithCleanups",
+                                                       "MaterializeTemporaryExpr", "CXXBindTemporaryExpr"):
+                    break
+                if par.get("cast") and changes_value(par["cast"], cur.get("ctype"), par.get("ctype"), False):
+                    bad.append((par["cast"], cur.get("ctype"), par.get("ctype")))
+                cur = par
+            n7 += 1
+            chk.check(not bad, "R7", A.loc(mainf, x), "main uses the value of %s() without a value-changing conversion%s" % (x["callee"].split("::")[-1], "" if not bad else " (%s)" % bad),
+                      "main:%s:converts:%s" % (x["callee"].split("::")[-1], ["%s:%s->%s" % b_ for b_ in bad]))
+    chk.floor("R7-getter-uses", n7, 90)
 
     # ---- R6 error discipline ---------------------------------------------------------------------------------
     idx = A.index(mainf)
